@@ -159,7 +159,8 @@ def run(res, tier):
         classes |= pysrc.node_classes(src)
         buf = io.StringIO()
         with contextlib.redirect_stdout(buf):
-            r = audit_run.run_strict(src)
+            # (the watchdog is about termination, not speed: the deeply nested programs are slow to tokenise)
+            r = audit_run.run_strict(src, timeout=60 if mode == "deep" else 4)
         if "EXECUTED" in buf.getvalue() and r["outcome"] == "ok":
             r["outcome"] = "runs-user-code"
         modes[mode] = modes.get(mode, 0) + 1
@@ -198,7 +199,7 @@ def run(res, tier):
 def replay(obj):
     buf = io.StringIO()
     with contextlib.redirect_stdout(buf):
-        r = audit_run.run_strict(obj["source"])
+        r = audit_run.run_strict(obj["source"], timeout=60)
     bad = r["outcome"] != "ok" or "EXECUTED" in buf.getvalue()
     print(r["outcome"], r.get("exc"), r.get("site"))
     if bad:
